@@ -993,4 +993,35 @@ theorem rmv_failure_clean' {idx : Nat → Nat} {progs : List (List (List Instr))
   have hL := stepC_sound idx s.arr s.cache c c' _ a' ch' hc (hI.book i c hi) (hI.pc i c hi) (hI.stack i c hi)
   have := lstep_rmvFail hL rfl
   exact ⟨this.2.1, this.2.2, c, hi, this.1⟩
+
+theorem count_le_countP (idx : Nat → Nat) (k : Nat) : ∀ (l : List Nat), l.count k ≤ l.countP (fun k' => idx k' == idx k) := by
+  intro l
+  induction l with
+  | nil => simp
+  | cons a t ih =>
+    by_cases h : a = k
+    · subst h; simp [List.count_cons, List.countP_cons]; exact ih
+    · simp only [List.count_cons, List.countP_cons]
+      have : (a == k) = false := by simpa using h
+      simp [this]; split <;> omega
+
+/-- the array cell is an exact, unbounded count of the simultaneous read holds: with `n` re-entrant
+reads of `k` open in one caller (and any number of other readers) the slot is at least `n`, and it
+equals the total number of read holds on that index -/
+theorem slot_counts_readers' {idx : Nat → Nat} {progs : List (List (List Instr))} {s : St}
+    (h : Reachable idx progs s) {j : Nat} {c : Caller} {k : Nat} (hj : s.cs[j]? = some c) (hk : k ∈ c.stack) :
+    s.arr (idx k) = (s.R idx (idx k) : Int) ∧ (c.stack.count k : Int) ≤ s.arr (idx k) := by
+  have hI := inv_reachable h
+  have gR := sumBy_ge (fun c => c.rc idx (idx k)) s.cs j c hj
+  have h1 : c.stack.count k ≤ c.rc idx (idx k) := by
+    simp only [Caller.rc, Caller.reads, List.countP_append]
+    have := count_le_countP idx k c.stack
+    omega
+  have hpos : 0 < c.stack.count k := List.count_pos_iff.mpr hk
+  simp only [St.R] at *
+  rcases hI.locks (idx k) with hl | hl
+  · simp only [St.R] at hl; constructor <;> omega
+  · simp only [St.R] at hl; omega
+
+def nestProgs (n : Nat) : List (List (List Instr)) := [[List.replicate n (.getSet 0 (.ok 1))]]
 end Coba.C19
